@@ -13,7 +13,9 @@ TRUSTED = ["Model/PressureSys.v get_row / removed_columns / reinsert_zeros / ass
            "frames.py by exact correspondence; total_curvature (PrimFloat instance) compared with tolerance 1e-9",
            "np.linalg.inv of the bordered normal equations is an oracle; its output is compared with an independent least-squares solve"]
 ASSUMPTIONS = ["tolerance 1e-7 (relative to the pressure scale) between reported pressures and the independent zero-sum least-squares solution"]
-TESTED_NOT_PROVED = ["the 3% turning-estimate clause (swept over uniformly sampled arcs: n = 3..17, angle up to 1.5 rad) and the 0.9 correlation "
+TESTED_NOT_PROVED = ["(proved over the reals in Props/C04.v: turning estimate zero on collinear points, invariant under translation / uniform scaling, "
+                     "odd under reversal; the floating-point implementation is compared with these by the oracle)",
+                     "the 3% turning-estimate clause (swept over uniformly sampled arcs: n = 3..17, angle up to 1.5 rad) and the 0.9 correlation "
                      "clause (equilibrium Moebius tissues, >= 5 points per interface) are evaluated by the oracle only",
                      "zero-sum least-squares optimality of the reported pressures is compared with an independent solve, not proved"]
 IMPORTS = "From Forsys Require Import Model.Num Model.CaseUtil Model.PyList Model.PressureSys.\n"
